@@ -78,7 +78,15 @@ class Prop(PropBase):
 
     def generate(self, rng, n, tier):
         cases = []
+        from props.C08 import gen_walrus_case
         for _ in range(n):
+            if rng.random() < 0.05:
+                # !py strings that bind names with := (written with and without spaces): nothing of it may
+                # reach the context
+                c = gen_walrus_case(rng)
+                c.update(dict_cls='dict', list_cls='list', frozen=False)
+                cases.append(c)
+                continue
             pairs, cmap = G.gen_context(rng)
             avail = [k for k, _ in pairs]
             p_fmt = rng.choice([0.0, 0.15, 0.4])
